@@ -397,16 +397,18 @@ func c16Snap(e error, defs []errdef.Factory, own bool) string {
 		for _, c := range ee.Unwrap() {
 			fmt.Fprintf(&b, ",%q", c.Error())
 		}
-		if hf, ok := ee.Stack().HeadFrame(); ok {
-			// a StackSkip option moves the head out of the operation's own closure, into
-			// frames that belong to whoever runs the operation
-			if own || strings.Contains(hf.Func, "c16Ops.func") {
-				fmt.Fprintf(&b, "|head=%s %s:%d", hf.Func, filepath.Base(hf.File), hf.Line)
-			} else {
-				b.WriteString("|head=caller's")
-			}
+		// The frames of a new error's own stack belong to whoever runs the operation.  Only a
+		// head frame inside the operation's closure is comparable; a StackSkip option moves
+		// the head into the caller's frames or (on a goroutine's short stack) leaves none.
+		hf, hasHead := ee.Stack().HeadFrame()
+		switch {
+		case own:
+			fmt.Fprintf(&b, "|head=%s %s:%d,%v|stacklen=%d", hf.Func, filepath.Base(hf.File), hf.Line, hasHead, ee.Stack().Len())
+		case hasHead && strings.Contains(hf.Func, "c16Ops.func"):
+			fmt.Fprintf(&b, "|head=%s %s:%d", hf.Func, filepath.Base(hf.File), hf.Line)
+		default:
+			b.WriteString("|stack: none or the caller's")
 		}
-		fmt.Fprintf(&b, "|stacklen>0=%v", ee.Stack().Len() > 0)
 	}
 	var pe errdef.PanicError
 	if errors.As(e, &pe) {
@@ -889,7 +891,7 @@ func c16ChildMain(args []string) int {
 						got := c16Safe(ops[i].F)
 						counts[g]++
 						if ops[i].Cmp && got != want[i] && len(mism[g]) < 3 {
-							mism[g] = append(mism[g], fmt.Sprintf("program %d goroutine %d op %q: alone %.300q concurrently %.300q", pi, g, ops[i].Name, want[i], got))
+							mism[g] = append(mism[g], fmt.Sprintf("program %d goroutine %d op %q: alone %.300q concurrently %.300q DIFF %s", pi, g, ops[i].Name, want[i], got, c16Diff(want[i], got)))
 						}
 					}
 				}
@@ -918,4 +920,14 @@ func c16ChildMain(args []string) int {
 	b, _ := json.Marshal(out)
 	fmt.Println(string(b))
 	return 0
+}
+
+// c16Diff shows where two results start to differ.
+func c16Diff(a, b string) string {
+	k := 0
+	for k < len(a) && k < len(b) && a[k] == b[k] {
+		k++
+	}
+	lo := max(0, k-60)
+	return fmt.Sprintf("at byte %d: alone ...%q concurrently ...%q", k, a[lo:min(len(a), k+120)], b[lo:min(len(b), k+120)])
 }
